@@ -183,6 +183,20 @@ fn nesting(kinds: &[TK]) -> usize {
     m
 }
 
+/// Work per token may not grow with the input: a parse of 10 times the input may cost at most this
+/// many times the CPU time per token (and only costs above the floor count: timer noise).
+const K_TIME_GROWTH: u64 = 4;
+const K_TIME_FLOOR_NS: u64 = 8_000;
+
+const FLAT_STATEMENTS: [&[TK]; 6] = [
+    &[TK::KeywordLet, TK::IdentifierValue, TK::OperatorEqual, TK::PrimitiveNum, TK::ControlSemicolon],
+    &[TK::KeywordLet, TK::IdentifierValue, TK::OperatorEqual, TK::ControlBraceLeft, TK::Property, TK::PrimitiveStr, TK::ControlBraceRight, TK::ControlSemicolon],
+    &[TK::KeywordRes, TK::PathElementRoot, TK::KeywordOn, TK::MethodGet, TK::OperatorArrow, TK::ControlChevronLeft, TK::ControlChevronRight, TK::ControlSemicolon],
+    &[TK::KeywordLet, TK::IdentifierReference, TK::OperatorEqual, TK::ControlBracketLeft, TK::IdentifierValue, TK::ControlBracketRight, TK::ControlSemicolon],
+    &[TK::KeywordUse, TK::LiteralString, TK::KeywordAs, TK::IdentifierValue, TK::ControlSemicolon],
+    &[TK::AnnotationLine, TK::KeywordLet, TK::IdentifierValue, TK::IdentifierValue, TK::OperatorEqual, TK::IdentifierValue, TK::IdentifierValue, TK::OperatorVerticalBar, TK::PrimitiveNum, TK::AnnotationInline, TK::ControlSemicolon],
+];
+
 const K_LINEAR: usize = 64;
 const UNCACHED_MAX_NESTING: usize = 4;
 /// Short inputs are cheap without the cache whatever their nesting.
@@ -228,6 +242,39 @@ fn check_kinds(kinds: &[TK], entries: &[Entry]) -> Outcome {
     o
 }
 
+/// CPU time per token (best of three, this thread's clock) of the cached parse of a long input and
+/// of its first tenth; token reads of the long one.
+fn time_growth(small: &[TK], huge: &[TK]) -> (u64, u64, usize) {
+    let time = |kinds: &[TK]| -> (u64, usize) {
+        let mut best = u64::MAX;
+        let mut reads = 0;
+        for _ in 0..3 {
+            let t0 = crate::engine::own_cpu_ns();
+            let (_, r, _) = parse_with(kinds, Entry::Program, true);
+            best = best.min(crate::engine::own_cpu_ns() - t0);
+            reads = r;
+        }
+        (best, reads)
+    };
+    let (ns_small, _) = time(small);
+    let (ns_huge, reads) = time(huge);
+    (ns_small / small.len().max(1) as u64, ns_huge / huge.len().max(1) as u64, reads)
+}
+
+fn time_growth_failure(per_small: u64, per_huge: u64, n_small: usize, n_huge: usize) -> Option<Failure> {
+    if per_huge > K_TIME_GROWTH * per_small.max(1) && per_huge > K_TIME_FLOOR_NS {
+        Some(Failure::new(
+            "c12:superlinear-time",
+            format!(
+                "the cached parse of {n_huge} tokens of flat statements costs {per_huge} ns of CPU per token, its first tenth ({n_small} tokens) {per_small} ns per token: \
+                 more than {K_TIME_GROWTH} times as much per token for 10 times the input (best of 3 each)"
+            ),
+        ))
+    } else {
+        None
+    }
+}
+
 fn frame(body: &[TK]) -> Vec<TK> {
     let mut v = vec![TK::KeywordLet, TK::IdentifierValue, TK::OperatorEqual];
     v.extend_from_slice(body);
@@ -242,12 +289,13 @@ struct Phases {
     nested: u64,
     programs: u64,
     flat: u64,
+    huge: u64,
 }
 
 fn phases(tier: Tier) -> Phases {
     match tier {
-        Tier::Quick => Phases { exhaustive_len: 4, sampled: 200_000, random: 40_000, nested: 7 * 40, programs: 4_000, flat: 400 },
-        Tier::Thorough => Phases { exhaustive_len: 6, sampled: 0, random: 800_000, nested: 7 * 40, programs: 100_000, flat: 8_000 },
+        Tier::Quick => Phases { exhaustive_len: 4, sampled: 200_000, random: 40_000, nested: 7 * 40, programs: 4_000, flat: 400, huge: 8 },
+        Tier::Thorough => Phases { exhaustive_len: 6, sampled: 0, random: 800_000, nested: 7 * 40, programs: 100_000, flat: 8_000, huge: 64 },
     }
 }
 
@@ -289,7 +337,7 @@ impl Property for C12 {
     }
     fn cases(&self, tier: Tier) -> u64 {
         let p = phases(tier);
-        seq_space(15, p.exhaustive_len) + p.sampled + p.random + p.nested + p.programs + p.flat
+        seq_space(15, p.exhaustive_len) + p.sampled + p.random + p.nested + p.programs + p.flat + p.huge
     }
     fn rule(&self) -> String {
         format!(
@@ -354,20 +402,45 @@ impl Property for C12 {
                         let which = (i as usize) % 7;
                         let depth = DEPTHS[(i as usize) / 7];
                         ("nested", nested_kinds(which, depth), &all_entries[..1])
+                    } else if i - p.nested >= p.programs + p.flat {
+                        // Very long flat inputs (50 000 - 100 000 tokens): the cached parse only, with the
+                        // CPU time it takes as a second measure of work (a memo table that degrades
+                        // with its size is invisible to the read counter).
+                        let n = tape.range(6_000, 12_000);
+                        let mut v = Vec::new();
+                        let mut small = Vec::new();
+                        for k in 0..n {
+                            let st = FLAT_STATEMENTS[tape.choose(FLAT_STATEMENTS.len())];
+                            v.extend_from_slice(st);
+                            if k < n / 10 {
+                                small.extend_from_slice(st);
+                            }
+                        }
+                        let (per_small, per_huge, reads) = time_growth(&small, &v);
+                        let mut r = CaseReport::default();
+                        r.hash = i ^ 0x4855_4745;
+                        r.evaluations = 6;
+                        r.nontrivial = true;
+                        r.label("phase:huge");
+                        r.max("tokens", v.len() as u64);
+                        r.max("huge_cpu_ns_per_token", per_huge);
+                        r.max("huge_vs_tenth_per_token_percent", per_huge * 100 / per_small.max(1));
+                        r.max("reads_per_token_milli", (reads as u64 * 1000) / (v.len() as u64 + 1));
+                        if reads > K_LINEAR * (v.len() + 1) {
+                            r.fail(Failure::new("c12:superlinear", format!("{reads} token reads for {} tokens (> {K_LINEAR} per token) on a long flat input", v.len())));
+                        } else if let Some(f) = time_growth_failure(per_small, per_huge, small.len(), v.len()) {
+                            r.fail(f);
+                        }
+                        if ctx.want_rendered || r.failure.is_some() {
+                            r.rendered = Some(json!({"phase": "huge", "kinds": v.iter().map(|k| format!("{k:?}")).collect::<Vec<_>>()}));
+                        }
+                        return r;
                     } else if i - p.nested >= p.programs {
                         // Long flat inputs: hundreds of small statements, shallow nesting (cheap without the cache).
-                        let stmts: [&[TK]; 6] = [
-                            &[TK::KeywordLet, TK::IdentifierValue, TK::OperatorEqual, TK::PrimitiveNum, TK::ControlSemicolon],
-                            &[TK::KeywordLet, TK::IdentifierValue, TK::OperatorEqual, TK::ControlBraceLeft, TK::Property, TK::PrimitiveStr, TK::ControlBraceRight, TK::ControlSemicolon],
-                            &[TK::KeywordRes, TK::PathElementRoot, TK::KeywordOn, TK::MethodGet, TK::OperatorArrow, TK::ControlChevronLeft, TK::ControlChevronRight, TK::ControlSemicolon],
-                            &[TK::KeywordLet, TK::IdentifierReference, TK::OperatorEqual, TK::ControlBracketLeft, TK::IdentifierValue, TK::ControlBracketRight, TK::ControlSemicolon],
-                            &[TK::KeywordUse, TK::LiteralString, TK::KeywordAs, TK::IdentifierValue, TK::ControlSemicolon],
-                            &[TK::AnnotationLine, TK::KeywordLet, TK::IdentifierValue, TK::IdentifierValue, TK::OperatorEqual, TK::IdentifierValue, TK::IdentifierValue, TK::OperatorVerticalBar, TK::PrimitiveNum, TK::AnnotationInline, TK::ControlSemicolon],
-                        ];
                         let n = tape.range(50, 800);
                         let mut v = Vec::new();
                         for _ in 0..n {
-                            v.extend_from_slice(stmts[tape.choose(stmts.len())]);
+                            v.extend_from_slice(FLAT_STATEMENTS[tape.choose(FLAT_STATEMENTS.len())]);
                         }
                         ("flat", v, &all_entries[..1])
                     } else {
@@ -416,6 +489,19 @@ impl Property for C12 {
     fn replay(&self, case: &Value) -> Option<Result<(), Failure>> {
         let names: Vec<String> = serde_json::from_value(case.get("kinds")?.clone()).ok()?;
         let kinds: Vec<TK> = names.iter().map(|n| ALL_KINDS.iter().copied().find(|k| format!("{k:?}") == *n)).collect::<Option<Vec<_>>>()?;
+        if case.get("phase").and_then(|p| p.as_str()) == Some("huge") {
+            // The first tenth of the statements against the whole.
+            let ends: Vec<usize> = kinds.iter().enumerate().filter(|(_, k)| **k == TK::ControlSemicolon).map(|(i, _)| i + 1).collect();
+            let cut = ends.get(ends.len() / 10).copied().unwrap_or(kinds.len());
+            let (per_small, per_huge, reads) = time_growth(&kinds[..cut], &kinds);
+            if reads > K_LINEAR * (kinds.len() + 1) {
+                return Some(Err(Failure::new("c12:superlinear", format!("{reads} token reads for {} tokens", kinds.len()))));
+            }
+            return Some(match time_growth_failure(per_small, per_huge, cut, kinds.len()) {
+                Some(f) => Err(f),
+                None => Ok(()),
+            });
+        }
         let o = check_kinds(&kinds, &[Entry::Program, Entry::Statement, Entry::Expression]);
         Some(match o.failure {
             Some(f) => Err(f),
